@@ -354,3 +354,42 @@ def _operator(qual, target):
 _operator("Perm.__add__", "Perm.direct_sum")
 _operator("Perm.__sub__", "Perm.skew_sum")
 _operator("Perm.__mul__", "Perm.compose")
+
+
+# ------------------------------------------------------------------ standardisation (C09)
+def _std_post(c, xs, result):
+    n = c.len(xs)
+    return c.and_(
+        c.len(result) == n,
+        c.is_perm(result),
+        # the unique permutation order-isomorphic to xs with ties broken left to right
+        c.forall2(0, n, lambda a, b: c.iff(result[a] < result[b], c.or_(xs[a] < xs[b], c.and_(xs[a] == xs[b], a < b)))),
+    )
+
+
+@contract("Perm._to_standard", params={"cls": "none", "iterable": "Seq"}, returns="Perm", props=("C09",))
+class ToStandardCached:
+    def requires(c, cls, iterable):
+        return c.true()
+
+    def ensures(c, cls, iterable, result):
+        return _std_post(c, iterable, result)
+
+    def ghost_inverse(c, cls, iterable, result):
+        return result.meta["ginv"]  # the witness of the callee (Perm.inverse)
+
+    modifies = ()
+
+
+@contract("Perm.to_standard", params={"cls": "none", "iterable": "Seq"}, returns="Perm", props=("C09",))
+class ToStandard:
+    def requires(c, cls, iterable):
+        return c.true()
+
+    def ensures(c, cls, iterable, result):
+        return _std_post(c, iterable, result)
+
+    def ghost_inverse(c, cls, iterable, result):
+        return result.meta["ginv"]
+
+    modifies = ()
